@@ -290,7 +290,11 @@ class Threader:
             changed_any = True
         if changed_any:
             self._mark_dead(hm)
-            self._drop_dead_consts(hm)
+            for _ in range(4):
+                n0 = sum(len(b["stmts"]) for b in hm["blocks"])
+                self._drop_dead_consts(hm)
+                if sum(len(b["stmts"]) for b in hm["blocks"]) == n0:
+                    break
         return changed_any
 
     @staticmethod
@@ -335,7 +339,12 @@ class Threader:
                 if st["k"] != "assign" or st["lhs"]["p"] or st["lhs"]["l"] not in self._unnamed:
                     continue
                 rv = st["rv"]
-                if rv["k"] != "use" or rv["ops"][0].get("k") != "const" or (rv["ops"][0].get("c") or {}).get("ty") != "bool":
+                if rv["k"] != "use":
+                    continue
+                o0 = rv["ops"][0]
+                is_bool_const = o0.get("k") == "const" and (o0.get("c") or {}).get("ty") == "bool"
+                is_plain_copy = bool(o0.get("place")) and not o0["place"]["p"] and str(st["lhs"].get("ty")) == "bool"
+                if not (is_bool_const or is_plain_copy):
                     continue
                 t = st["lhs"]["l"]
                 # read later in the same block?
